@@ -1,14 +1,16 @@
 import TracklibVerif.Model.DTW
 import TracklibVerif.Model.Geo
 /-! Executable model of `match` / `compare` in the DTW, FDTW and FRECHET modes of
-`tracklib/algo/comparison.py`, table style, as the code is after 42f835b: the two algorithms `_dtw` and `_fdtw`
+`tracklib/algo/comparison.py`, table style, as the code is after 42f835b and 1f009f6: the two algorithms `_dtw` and `_fdtw`
 (+ `_update_node`, `priority_dict.pop_smallest` by its contract) for any accumulation and **any point distance** `dist`
 (what `_distance(·, ·, dim)` computes for the positions at hand), `_fillAF_dtw` on
 `output = track1.copy()` (which may already carry the features of an earlier matching: `fillAFOn`), and, in the last
 part of the file, the calls as a user makes them: `_distance` as its dispatch on `dim` (1, 2, 3 or a callable) and on the
 class of the position objects (`ENUCoords`, `GeoCoords`, `ECEFCoords`: `distanceOf`, with the conversions of
-`Model/Geo.lean`), `_p2weight` as its cascade of tests on the type name and the value of
-`p`, `match` / `compare` dispatching on the integer mode constants, `_dtw_comparison` / `_fdtw_comparison`, and sessions of
+`Model/Geo.lean`), `_exponent` (1f009f6: the first line of `match` and of `compare`; a numpy floating / integer scalar `p` becomes
+`float(p)` / `int(p)` — `PArg.exponent`, decided on the type name), `_p2weight` as its cascade of tests on the type name and the
+value of `p`, `match` / `compare` (`matchCall` / `compareCall`: `_exponent`, then `matchBody` / `compareBody` dispatching on the
+integer mode constants), `_dtw_comparison` / `_fdtw_comparison`, and sessions of
 calls on shared objects (`runSeq`).
 
 Conventions, as in the Python: rows `i` index **track2**, columns `j` index **track1**;
@@ -341,6 +343,32 @@ def PArg.pyInt1 : PArg := { tyname := "<class'int'>", val := some (.nat 1) }
 /-- `float('inf')`, what the FRECHET modes hand to `_dtw_matching` / `_dtw_comparison` -/
 def PArg.pyInf : PArg := { tyname := "<class'float'>", val := some .inf }
 
+/-- `isinstance(p, np.floating)`, decided on `str(type(p))` (blanks removed): the names under which numpy prints its floating
+scalar types (`half`, `single`, `double` are aliases of the first three; `longdouble` prints as `float128` / `float96` in numpy 1) -/
+def isNpFloating (ty : String) : Bool :=
+  ["<class'numpy.float16'>", "<class'numpy.float32'>", "<class'numpy.float64'>", "<class'numpy.longdouble'>",
+   "<class'numpy.float128'>", "<class'numpy.float96'>"].contains ty
+
+/-- `isinstance(p, np.integer)`, decided on `str(type(p))`: the names of numpy's signed and unsigned integer scalar types (`byte`,
+`short`, `int_`, `intp`, … are aliases; `intc`, `long`, `longlong` and their unsigned forms print under their own name when they are
+not one of the sized types on the platform) -/
+def isNpInteger (ty : String) : Bool :=
+  ["<class'numpy.int8'>", "<class'numpy.int16'>", "<class'numpy.int32'>", "<class'numpy.int64'>",
+   "<class'numpy.uint8'>", "<class'numpy.uint16'>", "<class'numpy.uint32'>", "<class'numpy.uint64'>",
+   "<class'numpy.longlong'>", "<class'numpy.ulonglong'>", "<class'numpy.intc'>", "<class'numpy.uintc'>",
+   "<class'numpy.long'>", "<class'numpy.ulong'>"].contains ty
+
+/-- the type name of `_exponent(p)` (1f009f6): `float(p)` for a numpy floating scalar, `int(p)` for a numpy integer scalar, `p`
+itself otherwise -/
+def exponentTy (ty : String) : String :=
+  if isNpFloating ty then "<class'float'>" else if isNpInteger ty then "<class'int'>" else ty
+
+/-- `_exponent(p)`: a numpy scalar becomes the Python number of the same value (`float(p)` / `int(p)` keep the value: `val` is
+unchanged); anything else — Python numbers, callables, `numpy.bool`, `Fraction` — is returned as it is -/
+def PArg.exponent (p : PArg) : PArg := { p with tyname := exponentTy p.tyname }
+/-- `p` is a numpy floating or integer scalar -/
+def PArg.isNumpy (p : PArg) : Bool := isNpFloating p.tyname || isNpInteger p.tyname
+
 section front
 variable {α : Type} [Add α] [Sub α] [Mul α] [Div α] [Neg α] [LT α] [LE α] [DecidableLT α] [DecidableLE α] [OfNat α 0] [OfNat α 1]
   [OfScientific α]
@@ -397,15 +425,27 @@ def warpOn (G : Geom α) (big : α) (fast : Bool) (p : PArg) (dim : DimArg α) (
     | some o => .ok o
     | none => .error "err:index"
 
-/-- `match(track1, track2, mode, p, dim)` with `mode` the integer constant as passed
-(`MODE_MATCHING_NN = 1` is another algorithm, outside this model) -/
-def matchCall (G : Geom α) (big : α) (mode : Nat) (p : PArg) (dim : DimArg α) (a : TrackObj α) (t2 : List (Pt α)) :
+/-- the rest of `match(track1, track2, mode, p, dim)` after its first line `p = _exponent(p)`: the dispatch on `mode`, the integer
+constant as passed (`MODE_MATCHING_NN = 1` is another algorithm, outside this model). Before 1f009f6 this was the whole of `match`
+(`matchCallOld`). -/
+def matchBody (G : Geom α) (big : α) (mode : Nat) (p : PArg) (dim : DimArg α) (a : TrackObj α) (t2 : List (Pt α)) :
     Except String (Out α) :=
   if mode = 1 then .error "unmodelled"
   else if mode = 4 then warpOn G big false PArg.pyInf dim a t2
   else if mode = 2 then warpOn G big false p dim a t2
   else if mode = 3 then warpOn G big true p dim a t2
   else .error "err:UnknownModeError"
+
+/-- `match(track1, track2, mode, p, dim)`: `p = _exponent(p)`, then the dispatch on `mode` -/
+def matchCall (G : Geom α) (big : α) (mode : Nat) (p : PArg) (dim : DimArg α) (a : TrackObj α) (t2 : List (Pt α)) :
+    Except String (Out α) :=
+  matchBody G big mode p.exponent dim a t2
+
+/-- `match` **as it was before 1f009f6** (no `_exponent`: a numpy scalar `p` reached `_p2weight` as it came). Kept only as the
+documented pre-fix variant; nothing is run or compared with it. -/
+def matchCallOld (G : Geom α) (big : α) (mode : Nat) (p : PArg) (dim : DimArg α) (a : TrackObj α) (t2 : List (Pt α)) :
+    Except String (Out α) :=
+  matchBody G big mode p dim a t2
 
 /-- `_dtw_comparison` (`fast = false`) / `_fdtw_comparison` (`fast = true`): the score for `p = 0`, `p = inf` and (DTW
 only) a callable `p`; `(score/nb_links)**(1.0/p)` otherwise — `1.0/p` is a TypeError for a callable `p` in the fast variant.
@@ -418,15 +458,20 @@ def warpCompare (G : Geom α) (root : Nat → α → α) (ofNat : Nat → α) (b
     | some (.nat k) => pure (root k (m.score / ofNat m.nbLinks))
     | _ => .error (if p.isFn then "err:type" else "unmodelled")
 
-/-- `compare(track1, track2, mode, p, dim)` in the modes DTW (106), FDTW (107) and FRECHET (108); the other six modes
-(101–105, 109) are other algorithms, outside this model -/
-def compareCall (G : Geom α) (root : Nat → α → α) (ofNat : Nat → α) (big : α) (mode : Nat) (p : PArg) (dim : DimArg α)
+/-- the rest of `compare(track1, track2, mode, p, dim)` after its first line `p = _exponent(p)`, in the modes DTW (106), FDTW (107)
+and FRECHET (108); the other six modes (101–105, 109) are other algorithms, outside this model -/
+def compareBody (G : Geom α) (root : Nat → α → α) (ofNat : Nat → α) (big : α) (mode : Nat) (p : PArg) (dim : DimArg α)
     (a : TrackObj α) (t2 : List (Pt α)) : Except String α :=
   if mode = 101 ∨ mode = 109 ∨ mode = 102 ∨ mode = 103 ∨ mode = 104 ∨ mode = 105 then .error "unmodelled"
   else if mode = 108 then warpCompare G root ofNat big false PArg.pyInf dim a t2
   else if mode = 106 then warpCompare G root ofNat big false p dim a t2
   else if mode = 107 then warpCompare G root ofNat big true p dim a t2
   else .error "err:UnknownModeError"
+
+/-- `compare(track1, track2, mode, p, dim)`: `p = _exponent(p)`, then the dispatch on `mode` -/
+def compareCall (G : Geom α) (root : Nat → α → α) (ofNat : Nat → α) (big : α) (mode : Nat) (p : PArg) (dim : DimArg α)
+    (a : TrackObj α) (t2 : List (Pt α)) : Except String α :=
+  compareBody G root ofNat big mode p.exponent dim a t2
 
 /-- integer constant of a matching mode -/
 def Mode.code : Mode → Nat
